@@ -890,6 +890,16 @@ def rt_cases(prop):
             # the window is edited between two runs of the same scheduler
             S('top', [J('a'), J('b'), J('c'), J('d')], [], window=1, rerun=True, rerun_window=3),
             S('top', [J('a'), J('b'), J('c'), J('d')], [], window=3, rerun=True, rerun_window=1),
+            # between two runs: a never-ending forever job is added and the window is raised to make room for it
+            S('top', [J('first'), J('second')], [(1, 0)], window=1, rerun=True, rerun_window=2,
+              rerun_add=[J('never', duration=None, forever=True)]),
+            S('top', [J('a'), J('b'), J('c')], [], window=2, rerun=True, rerun_window=4,
+              rerun_add=[J('never1', duration=None, forever=True), J('never2', duration=None, forever=True)]),
+            # a forever nested scheduler is still tidying its own forever job (slow to die) when the run ends
+            S('top', [S('svc', [J('r', duration=1), J('log', duration=None, forever=True, cancel_delay=0.5)], forever=True),
+                      J('main', duration=1, yields=3)]),
+            S('top', [S('svc', [J('r', duration=1, yields=2), J('log', duration=None, forever=True, cancel_delay=0.5)], forever=True),
+                      J('main', duration=1, yields=4)]),
             # a tolerated failure first, a critical one later, along chains of critical / non-critical schedulers
             S('top', [S('n1', [S('n2', [J('t', outcome='raise'), J('x', duration=2, critical=True, outcome='raise')],
                                  critical=True)], critical=True), J('y', duration=5)], critical=True),
